@@ -52,11 +52,15 @@ CLAIMED["C16"] = dict(
          "lowering links return to the start, the lowering link is absent iff the entry is 0 and the raising link iff the index "
          "is at the deepest level. The tables produced by the real methods (hinds, levels, levlengths, nm1, np1, Gamma) are "
          "compared exactly with the model for baths 1-5 x depths 0-7, and propagate() of hand-parameterised hierarchies agrees "
-         "with the rational model of the right-hand sides + Taylor loop to 1e-15. Trace/Hermiticity of the dynamics, the "
-         "zero-coupling reduction and convergence with depth to exp(-iwt-g(t)) are checked by the oracle (partial: not proved).",
+         "with the rational model of the right-hand sides + Taylor loop to 1e-15. For that model of _ado_self_rhs/_ado_cros_rhs/"
+         "propagate it is proved, for every number of baths, depth, Hamiltonian, coupling operators, bath parameters, step, "
+         "expansion order and number of steps, that the reduced density matrix keeps the trace of the initial state "
+         "(heom_trace_conserved), stays Hermitian for Hermitian operators and real parameters (heom_hermitian_preserved) and, "
+         "with all reorganisation energies zero, is exactly the closed-system trajectory (heom_zero_coupling_is_closed). "
+         "Convergence with depth to exp(-iwt-g(t)) is measured by the oracle (partial: not proved).",
     note="Lean kernel + standard axioms; hand model validated on generated inputs; KTHierarchy objects for table/dynamics cases are "
          "allocated with object.__new__ and filled by the class's own methods; convergence with depth is measured only.",
-    technique="Lean 4 inductive proofs over the index generator + exact table correspondence + numeric oracle for dynamics",
+    technique="Lean 4 inductive proofs over the index generator + simulation-relation proofs on the hierarchy stepping (trace, Hermiticity, closed limit) + exact table and trajectory correspondence + numeric oracle for depth convergence",
     ref="DESIGN.md §5 C16")
 
 CLAIMED["C05"] = dict(
